@@ -1,8 +1,8 @@
 // Command harness drives the real MassNet-wallet code (built from /repo's working tree with
 // -tags verif) through the line protocol shared with the Lean driver (tie A of DESIGN.md).
 //
-//   harness gen  -engine E -prop P -tier T -seed S -out DIR   generate op lines (ops.txt) + meta.json
-//   harness exec -engine E -in ops.txt -out impl.txt          execute op lines on the implementation
+//	harness gen  -engine E -prop P -tier T -seed S -out DIR   generate op lines (ops.txt) + meta.json
+//	harness exec -engine E -in ops.txt -out impl.txt          execute op lines on the implementation
 //
 // gen and exec are separate so that a replay (a saved ops file) runs through exactly the same
 // executor, and so that shrinking can re-execute sub-sequences.
